@@ -2,7 +2,7 @@
    Props.v derived from the invariant (LemInv) and the format lemmas (LemFmt). *)
 From Coq Require Import ZArith List Bool Lia Permutation.
 From AK Require Import Common.Sx Common.Err C16.Instr gen.C16_Consts C16.Model
-  C16.LemList C16.LemFmt C16.LemInv C16.LemLive.
+  C16.LemList C16.LemFmt C16.LemInv C16.LemLive C16.LemTerm.
 Import ListNotations.
 Open Scope Z_scope.
 
@@ -356,3 +356,165 @@ Lemma demo_l :
   let st := exec [] impl_prog demo_sched (init (Some 0) [[[]]; [[]; []]]) in
   finished st /\ map (fun th => nums (out th)) (threads st) = [[0]; [2; 1]] /\ ctr st = Some 3.
 Proof. vm_compute. split; [repeat constructor|]. split; reflexivity. Qed.
+
+(* ------------------------------------------------------------ liveness: every reachable state can be finished,
+   and every schedule whose steps are all effective finishes (LemTerm) *)
+Lemma can_finish_l cp prog c0 Rs sched :
+  well_locked prog = true ->
+  let st0 := init (Some c0) Rs in
+  exists more, effective cp prog (exec cp prog sched st0) more /\ finished (exec cp prog (sched ++ more) st0).
+Proof.
+  intros Hwl st0.
+  destruct (well_locked_spec _ Hwl) as (cs & r & ar & Hp & Ha & Hr).
+  destruct (finish_from cp prog (Inv cp prog cs r c0 Rs)) with
+      (n := steps_left prog (exec cp prog sched st0)) (st := exec cp prog sched st0) as (more & He & Hf).
+  - intros st t H. exact (step_inv cp prog cs r ar Hp Ha Hr keys_agree set_key_observed c0 Rs st t H).
+  - intros st H Hnf. exact (progress_l cp prog cs r Hp c0 Rs st H Hnf).
+  - apply (exec_inv cp prog cs r ar Hp Ha Hr keys_agree set_key_observed). apply inv_init. lia.
+  - apply le_n.
+  - exists more. split; [exact He|]. rewrite exec_app. exact Hf.
+Qed.
+
+Lemma progress_off cp prog c1 Rs st :
+  prog = ICheck :: c1 -> InvOff prog Rs st -> ~ finished st -> exists t, step cp prog st t <> st.
+Proof.
+  intros Hp (Hlen & Hc & Hl & Hall) Hnf.
+  unfold finished in Hnf. apply (neg_Forall_Exists_neg thread_done_dec) in Hnf.
+  apply Exists_exists in Hnf as (th & Hin & Hwork).
+  apply In_nth_error in Hin as (t & Hn). exists t. unfold step. rewrite Hn.
+  destruct (Hall t th Hn) as [[E|[E|E]] _]; rewrite E.
+  - destruct (todo th) as [|h rest] eqn:Ht; [exfalso; apply Hwork; auto|].
+    apply threads_neq. apply (set_nth_changes _ _ th); [exact Hn|].
+    apply code_neq. cbn [code]. rewrite E, Hp. discriminate.
+  - rewrite Hp, Hc. apply threads_neq. apply (set_nth_changes _ _ th); [exact Hn|].
+    apply code_neq. cbn [code]. rewrite E, Hp. discriminate.
+  - apply threads_neq. apply (set_nth_changes _ _ th); [exact Hn|].
+    apply code_neq. cbn [finish code]. rewrite E. discriminate.
+Qed.
+
+Lemma can_finish_off_l cp prog Rs sched :
+  well_locked prog = true ->
+  let st0 := init None Rs in
+  exists more, effective cp prog (exec cp prog sched st0) more /\ finished (exec cp prog (sched ++ more) st0).
+Proof.
+  intros Hwl st0.
+  destruct (well_locked_spec _ Hwl) as (cs & r & ar & Hp & _).
+  destruct (finish_from cp prog (InvOff prog Rs)) with
+      (n := steps_left prog (exec cp prog sched st0)) (st := exec cp prog sched st0) as (more & He & Hf).
+  - intros st t H. exact (step_off cp prog _ Hp Rs st t H).
+  - intros st H Hnf. exact (progress_off cp prog _ Rs st Hp H Hnf).
+  - apply (exec_off cp prog _ Hp). apply init_off.
+  - apply le_n.
+  - exists more. split; [exact He|]. rewrite exec_app. exact Hf.
+Qed.
+
+(* the work left in the initial state: (weight of the program + 1) per request *)
+Lemma steps_left_init prog c Rs :
+  steps_left prog (init c Rs) = (S (cw prog) * list_sum (map (@length headers) Rs))%nat.
+Proof.
+  unfold steps_left, init. cbn [threads]. rewrite map_map. unfold work. cbn [code todo].
+  induction Rs as [|R l IH]; cbn [map]; [rewrite Nat.mul_0_r; reflexivity|].
+  rewrite !list_sum_cons, IH. change (cw []) with 0%nat. lia.
+Qed.
+
+(* ------------------------------------------------------------ the id VALUES carried by generated-id requests *)
+Lemma gen_vals_fmt cp evs :
+  Forall (fun e => exists h, event_ok cp h e) evs -> gen_vals evs = map (fmt cp) (nums evs).
+Proof.
+  induction 1 as [|e r (h & He) _ IH]; [reflexivity|].
+  unfold event_ok in He. destruct (supplied h).
+  - subst e. cbn [gen_vals nums]. exact IH.
+  - destruct He as (n & ->). cbn [gen_vals nums map]. f_equal. exact IH.
+Qed.
+
+Lemma Forall2_right {A B} (P : A -> B -> Prop) l1 l2 :
+  Forall2 P l1 l2 -> Forall (fun b => exists a, P a b) l2.
+Proof. induction 1; constructor; eauto. Qed.
+
+Lemma generated_ids_fmt cp prog c0 Rs sched :
+  well_locked prog = true ->
+  let st := exec cp prog sched (init (Some c0) Rs) in
+  generated_ids st = map (fmt cp) (numbers st).
+Proof.
+  intros Hwl st. unfold generated_ids, numbers.
+  assert (Hall : forall th, In th (threads st) -> gen_vals (out th) = map (fmt cp) (nums (out th))).
+  { intros th Hin. apply In_nth_error in Hin as (t & Ht).
+    assert (t < length Rs)%nat as Hlt.
+    { rewrite <- (threads_length_l cp prog Hwl c0 Rs sched). apply nth_error_Some. fold st. congruence. }
+    destruct (nth_error Rs t) as [R|] eqn:ER; [|apply nth_error_None in ER; lia].
+    destruct (answered_l cp prog Hwl c0 Rs sched t th R Ht ER) as (D & _ & HF).
+    apply gen_vals_fmt. apply Forall2_right in HF.
+    rewrite <- (rev_involutive (out th)). apply Forall_rev. exact HF. }
+  revert Hall. generalize (threads st). intros l.
+  induction l as [|th l IH]; intros Hall; [reflexivity|].
+  cbn [map concat]. rewrite map_app. rewrite (Hall th) by (left; reflexivity).
+  f_equal. apply IH. intros th' Hin. apply Hall. right. exact Hin.
+Qed.
+
+Lemma generated_ids_distinct_l cp prog c0 Rs sched :
+  well_locked prog = true -> 0 <= c0 ->
+  NoDup (generated_ids (exec cp prog sched (init (Some c0) Rs))).
+Proof.
+  intros Hwl H0. rewrite (generated_ids_fmt cp prog c0 Rs sched Hwl).
+  exact (ids_distinct_l cp prog Hwl c0 Rs sched H0).
+Qed.
+
+(* ------------------------------------------------------------ derived connections use their root's implementation object *)
+Lemma wrap_rule_shares : wrap_rule = RShareParent.
+Proof. reflexivity. Qed.
+
+Lemma derived_share_l c : impl_of c = root_of c.
+Proof.
+  induction c as [i|p IH]; [reflexivity|]. cbn [impl_of root_of]. rewrite wrap_rule_shares. exact IH.
+Qed.
+
+(* ------------------------------------------------------------ more examples *)
+Definition accept_hdr : list Z * list Z := ([65;99;99;101;112;116], [42;47;42]).      (* ("Accept", "*/*") *)
+Definition xother_hdr : list Z * list Z := ([88;45;79;116;104;101;114], [49]).       (* ("X-Other", "1") *)
+
+(* an EMPTY caller-supplied id is an id: sent as it is, no number used; the next request gets number c0 *)
+Lemma empty_id_l :
+  let st := exec [] impl_prog (repeat 0%nat 11) (init (Some 0) [[[(hdr_test_key, [])]; []]]) in
+  map out (threads st) = [[Sent (Some 0) (Some (fmt [] 0)); Sent None (Some [])]] /\ ctr st = Some 1 /\ finished st.
+Proof. vm_compute. repeat split. repeat constructor. Qed.
+
+Lemma other_keys_l : Forall other_key [accept_hdr] /\ Forall other_key [xother_hdr] /\ sent_value ([accept_hdr] ++ (hdr_test_key, mine) :: [xother_hdr]) None = Some mine.
+Proof. vm_compute. repeat split; repeat constructor. Qed.
+
+(* the 4-digit part wraps at fmt_mod, the id does not: numbers 3 and 10003 share the first part and differ in the tail;
+   numbers of 13 digits and more simply make the tail longer *)
+Lemma wrap_l :
+  firstn 4 (fmt [] 3) = firstn 4 (fmt [] 10003) /\ fmt [] 3 <> fmt [] 10003 /\ length (fmt [] 999999999999) = 32%nat /\ length (fmt [] 1000000000000) = 33%nat /\ fmt [] 999999999999 <> fmt [] 1999999999999.
+Proof. vm_compute. repeat split; discriminate. Qed.
+
+(* ids disabled: a run of two threads *)
+Lemma disabled_run_l :
+  let st := exec [] impl_prog [0; 1; 0; 1; 0; 1]%nat (init None [[[]]; [[(hdr_test_key, mine)]]]) in
+  finished st /\ map out (threads st) = [[Sent None None]; [Sent None (Some mine)]] /\ ctr st = None.
+Proof. vm_compute. split; [repeat constructor|]. split; reflexivity. Qed.
+
+(* a reachable state in which thread 1 is blocked on the lock (its step changes nothing) while thread 0 can move *)
+Lemma blocked_l :
+  let st := exec [] impl_prog [0; 0; 0; 1; 1]%nat (init (Some 0) [[[]]; [[]]]) in
+  ~ finished st /\ lock st = Some 0%nat /\ step [] impl_prog st 1 = st /\ step [] impl_prog st 0 <> st.
+Proof.
+  vm_compute. split; [|split; [reflexivity|split; [reflexivity|discriminate]]].
+  intros H. inversion H as [|? ? [H1 _] _]. discriminate.
+Qed.
+
+(* an effective schedule as long as the bound: 16 steps that all do something, then everything is finished *)
+Definition eff_sched : list tid :=
+  ([0; 0; 0;  1; 1;  0; 0; 0; 0;  1;  0;  1; 1; 1; 1; 1] ++ repeat 0 14)%nat.
+Lemma eff_sched_l :
+  let st0 := init (Some 0) [[[]]; [[]]] in
+  effective [] impl_prog st0 eff_sched /\ (steps_left impl_prog st0 <= length eff_sched)%nat /\
+  ~ finished (exec [] impl_prog (firstn 15 eff_sched) st0).
+Proof.
+  vm_compute. split; [|split].
+  - repeat split; first [right; discriminate | left; repeat constructor].
+  - repeat constructor.
+  - intros H. inversion H as [|? ? _ H2]. inversion H2 as [|? ? [H3 _] _]. discriminate.
+Qed.
+
+Lemma wrappers_l : impl_of (CWrap (CWrap (CRoot 7))) = CRoot 7 /\ impl_of (CWrap (CRoot 7)) = impl_of (CRoot 7) /\ impl_of (CRoot 7) <> impl_of (CRoot 8).
+Proof. vm_compute. repeat split. discriminate. Qed.
